@@ -9,7 +9,9 @@ import (
 
 	"github.com/jamf/regatta/internal/verif"
 	rp "github.com/jamf/regatta/pebble"
+	"github.com/jamf/regatta/regattapb"
 	"github.com/jamf/regatta/storage/table/key"
+	sm "github.com/lni/dragonboat/v4/statemachine"
 )
 
 // vhEnc encodes a user key exactly the way every storage access does.
@@ -114,4 +116,48 @@ func VH_C12_vacuity(n int) {
 	a := verif.Bytes(n)
 	_ = vhEnc(a)
 	verif.Assert(false, "vacuity")
+}
+
+// VH_C12_deleterange: the write path builds its own bounds (handleDelete). A
+// range delete [a, b) — b arbitrary or the wildcard — applied to a table
+// holding one arbitrary key of lk bytes removes it exactly when a <= k < b
+// (k >= a for the wildcard), reports it when asked, and never touches the
+// bookkeeping keys.
+func VH_C12_deleterange(la, lk int) {
+	db := vhOpenDB()
+	k := verif.Bytes(lk)
+	vhSet(db, k, []byte("v"))
+	vhSetSys(db, 5, 9)
+	f := vhFSM(db, nil)
+	a := verif.Bytes(la)
+	var b []byte
+	wild := verif.Bool()
+	if wild {
+		b = []byte{0}
+	} else {
+		b = verif.Bytes(lk)
+		wild = bytes.Equal(b, wildcard) // a one-byte zero end IS the wildcard
+	}
+	cmd := &regattapb.Command{Table: []byte("t"), Type: regattapb.Command_DELETE, Kv: &regattapb.KeyValue{Key: a}, RangeEnd: b, Count: true}
+	out, err := f.Update([]sm.Entry{vhEntry(6, cmd)})
+	verif.Assert(err == nil && len(out) == 1, "update succeeds")
+	if err != nil || len(out) != 1 {
+		return
+	}
+	want := bytes.Compare(a, k) <= 0 && (wild || bytes.Compare(k, b) < 0)
+	res := vhResult(out[0])
+	if len(res.Responses) == 1 && res.Responses[0].GetResponseDeleteRange() != nil {
+		verif.Assert((res.Responses[0].GetResponseDeleteRange().Deleted == 1) == want, "range delete reports the key exactly when it lies in the user range")
+	} else {
+		verif.Assert(false, "range delete answers with one delete response")
+	}
+	w := vhWhole(f)
+	verif.Assert((w.Count == 0) == want, "range delete removes the key exactly when it lies in the user range")
+	verif.Assert(vhReadIndex(f, false) == 6 && vhReadIndex(f, true) == 9, "bookkeeping keys are outside every deleted range")
+	if want {
+		verif.Cover("deleted")
+	} else {
+		verif.Cover("kept")
+	}
+	verif.Cover("end")
 }
